@@ -106,6 +106,8 @@ impl Task {
     }
 
     pub fn state(&self) -> TaskState {
+        #[cfg(feature = "verif")]
+        crate::verif::point("task.state.r", &self.pid, &self.id);
         let state = &*self.state.read().unwrap();
         state.clone()
     }
@@ -116,6 +118,11 @@ impl Task {
         }
 
         0
+    }
+
+    #[cfg(feature = "verif")]
+    pub(crate) fn state_quiet(&self) -> TaskState {
+        self.state.read().unwrap().clone()
     }
 
     pub fn is_emit_disabled(&self) -> bool {
@@ -315,6 +322,11 @@ impl Task {
     }
 
     pub fn set_state(&self, state: TaskState) {
+        #[cfg(feature = "verif")]
+        {
+            crate::verif::point("task.state.w", &self.pid, &self.id);
+            crate::verif::trace_state(self, &state, false);
+        }
         if state.is_completed() {
             self.set_end_time(utils::time::time_millis());
 
@@ -346,6 +358,11 @@ impl Task {
     }
 
     pub fn set_pure_state(&self, state: TaskState) {
+        #[cfg(feature = "verif")]
+        {
+            crate::verif::point("task.state.w", &self.pid, &self.id);
+            crate::verif::trace_state(self, &state, true);
+        }
         *self.state.write().unwrap() = state;
     }
 
@@ -1002,6 +1019,8 @@ impl Task {
     }
 
     pub fn set_data(&self, vars: &Vars) {
+        #[cfg(feature = "verif")]
+        crate::verif::point("task.data.w", &self.pid, &self.id);
         let mut data = self.data.write().unwrap();
         for (ref name, value) in vars {
             data.set(name, value);
